@@ -36,10 +36,48 @@ def builder_env(te: TermEval, phsp=None):
     return pool, resonance, self_struct
 
 
+def check_hankel_series(ctx: Check, tree: Tree) -> None:
+    """R-TERM: SphericalHankel1(l, z).evaluate() is the closed series of the spherical Hankel function
+    of the first kind,  h_l^(1)(z) = (-i)^(l+1) e^(iz)/z * sum_{k=0}^{l} (l+k)!/((l-k)! k!) (i/(2z))^k
+    (Abramowitz-Stegun 10.1.16; the reference is written in the module's own namespace and
+    evaluated by the same term extractor).  Both paths of BlattWeisskopfSquared are built from it."""
+    import ast as _ast
+
+    D.reset()
+    te = TermEval(tree)
+    cls = tree.cls(f"{FF}::SphericalHankel1")
+    ev = cls.methods.get("evaluate")
+    if ev is None:
+        raise AnalysisError("vanished anchor: SphericalHankel1.evaluate")
+    info = te.apps[te.single_atom(te.construct(cls.qual, [sym("l"), sym("z")], {}))]
+    env = te.self_env(cls.qual, info)
+    got = te.eval_body(ev.node.body, dict(env), ev)
+    # the summation variable of the code (whatever it is called, whatever its assumptions)
+    dummies = [st for st in ev.node.body if isinstance(st, _ast.Assign) and isinstance(st.value, _ast.Call) and "Dummy" in unparse(st.value.func)]
+    if len(dummies) != 1:
+        raise AnalysisError("SphericalHankel1.evaluate: summation variable (sp.Dummy) not found")
+    env2 = dict(env)
+    env2["k"] = te.ev(dummies[0].value, env, ev)
+    env2.update({"l": env.get("l", sym("l")), "z": env.get("z", sym("z"))})
+    if "l" not in env or "z" not in env:
+        # fields are unpacked from self.args in the body: bind them by name for the reference
+        env2["l"], env2["z"] = sym("l"), sym("z")
+    spec = "(-sp.I) ** (1 + l) * (sp.exp(z * sp.I) / z) * _SymbolicSum(sp.factorial(l + k) / (sp.factorial(l - k) * sp.factorial(k)) * (sp.I / (2 * z)) ** k, (k, 0, l))"
+    want = te.ev(_ast.parse(spec, mode="eval").body, env2, ev)
+    ok = isinstance(got, RF) and equal(got, want)
+    ctx.verdict(ok, "R-TERM", f"{cls.qual}.evaluate::series", tree.loc(ev.node),
+                "SphericalHankel1(l, z) == (-i)^(l+1) e^(iz)/z * sum_{k=0..l} (l+k)!/((l-k)! k!) (i/(2z))^k", None if ok else repr(got)[:300])
+    kw = {k.arg: unparse(k.value) for k in dummies[0].value.keywords}
+    ok2 = kw.get("integer") == "True" and kw.get("nonnegative") == "True"
+    ctx.verdict(ok2, "R-TERM", f"{cls.qual}.evaluate::summation-variable", tree.loc(dummies[0]), "the summation variable is a non-negative integer Dummy (factorial(k) and the finite sum need it)",
+                None if ok2 else kw)
+
+
 def run(ctx: Check, tree: Tree) -> None:
     ctx.decided += [
         "R-TERM (shared with C13): the variable set handed to the builders carries the masses and the L of that decay node (fallbacks only where the transition specifies no L)",
         "EnergyDependentWidth.evaluate at s = mass0^2 normalises to gamma0 for every phase-space factor and L (ff/ff0 and rho/rho0 become identical applications)",
+        "SphericalHankel1.evaluate is the closed Hankel series (the defining expression both Blatt-Weisskopf paths are built from)",
         "_formulate_blatt_weisskopf(L, z=1) normalises to 1; FormFactor = sqrt(BlattWeisskopfSquared(q^2(s,m1,m2) * d^2, L))",
         "both branches of BlattWeisskopfSquared.evaluate come from _formulate_blatt_weisskopf (the polynomial cache is derived from it)",
         "RelativisticBreitWignerBuilder: simple BW delegates to relativistic_breit_wigner(s = M^2, ...); form factor x energy-dependent BW == relativistic_breit_wigner_with_ff under (s, mass0, gamma0, m_a, m_b, L, d, phsp) <-> (M^2, res_mass, res_width, m1, m2, L, d, self.phsp_factor); convenience builders have their documented flags",
@@ -90,6 +128,7 @@ def run(ctx: Check, tree: Tree) -> None:
 
     # ---- builder API == function API
     ctx.section(check_builder, ctx, tree, te)
+    ctx.section(check_hankel_series, ctx, tree)
     from .c13 import check_variable_set
 
     ctx.section(check_variable_set, ctx, tree)
